@@ -497,7 +497,11 @@ func condenseWHSP(b string) string {
 			if last {
 				last = false
 			}
-			builder.WriteRune(c)
+
+			// b is iterated bytewise: copy the byte as it
+			// is (WriteRune would re-encode every byte of
+			// a multi-byte UTF-8 sequence on its own).
+			builder.WriteByte(b[i])
 		}
 	}
 
